@@ -73,6 +73,17 @@ func (c Config) Options() *opt.Options {
 	case "rot":
 		o = flushy()
 		o.MaxManifestFileSize = 1
+	case "tightcomp":
+		// every size limit of compaction picking at its minimum: inputs are not expanded, outputs are
+		// cut at the first overlap with the grandparent level, table sizes grow per level
+		o = flushy()
+		o.CompactionL0Trigger = 1
+		o.CompactionTotalSize = 60
+		o.CompactionTotalSizeMultiplier = 2
+		o.CompactionExpandLimitFactor = 1
+		o.CompactionGPOverlapsFactor = 1
+		o.CompactionSourceLimitFactor = 1
+		o.CompactionTableSizeMultiplier = 2
 	case "throttle":
 		// writers are slowed down at one level-0 table and wait for the table compaction at two
 		o = flushy()
